@@ -55,7 +55,8 @@ func (e *Engine) replay(fr *FuncResult, r oblResult, outDir string) (verdict, ou
 }
 
 type replayAdapter struct {
-	match func(key string) bool
+	search bool // finds inputs by a small-scope search of its own: does not need the solver's model
+	match  func(key string) bool
 	run   func(e *Engine, fr *FuncResult, r oblResult, outDir string) (string, string, string)
 }
 
@@ -129,9 +130,22 @@ func (e *Engine) modelValues(o *Obligation, probes []probe, bounds []*Term, outD
 }
 
 func runReplayTest(repo, pkgDir, testSrc, outDir string) (string, string) {
+	return runReplayTestExtra(repo, pkgDir, testSrc, outDir, nil)
+}
+
+// runReplayTestExtra also injects further files (repository-relative path -> content), e.g. a shim that makes an
+// unexported package-level constant of another package readable by the generated test. Nothing is written to the repository.
+func runReplayTestExtra(repo, pkgDir, testSrc, outDir string, extra map[string]string) (string, string) {
 	testFile := filepath.Join(outDir, "govc_replay_test.go")
 	os.WriteFile(testFile, []byte(testSrc), 0o644)
 	ov := map[string]map[string]string{"Replace": {filepath.Join(repo, pkgDir, "govc_replay_test.go"): testFile}}
+	i := 0
+	for rel, content := range extra {
+		i++
+		f := filepath.Join(outDir, fmt.Sprintf("govc_extra_%d.go", i))
+		os.WriteFile(f, []byte(content), 0o644)
+		ov["Replace"][filepath.Join(repo, rel)] = f
+	}
 	ovb, _ := json.Marshal(ov)
 	ovFile := filepath.Join(outDir, "overlay.json")
 	os.WriteFile(ovFile, ovb, 0o644)
@@ -166,3 +180,13 @@ func sxInt(m map[string]*sx, k string, def int64) int64 {
 
 func filepath_join(a ...string) string { return filepath.Join(a...) }
 func mkdirAll(d string)                { os.MkdirAll(d, 0o755) }
+
+// searchReplayable: an adapter that does not need a model serves this function.
+func searchReplayable(key string) bool {
+	for _, ad := range replayAdapters {
+		if ad.search && ad.match(key) {
+			return true
+		}
+	}
+	return false
+}
